@@ -116,6 +116,15 @@ func execOp(h *vh.H, op string) string {
 			return "bad-op"
 		}
 		return execTotalAst(h, op, co)
+	case "total.neg":
+		if len(args) < 1 || args[0].List {
+			return "bad-op"
+		}
+		co, ok := parseCompileOp(args[1:], 0)
+		if !ok || len(co.rest) != 0 {
+			return "bad-op"
+		}
+		return execTotalNeg(h, op, args[0].Atom, co)
 	case "total.src":
 		return execTotalSrc(h, op, args)
 	case "det":
